@@ -280,6 +280,9 @@ func (p *Peer) GaveUp() bool { p.mu.Lock(); defer p.mu.Unlock(); return p.gaveUp
 // having received the complete request.
 func (p *Peer) AnsweredUnearned() int { p.mu.Lock(); defer p.mu.Unlock(); return p.lenientUsed }
 
+// Steps is the number of steps of the peer's script.
+func (p *Peer) Steps() int { return len(p.steps) }
+
 // Done reports how many steps were answered.
 func (p *Peer) Done() int { p.mu.Lock(); defer p.mu.Unlock(); return p.i }
 
